@@ -3,6 +3,8 @@
 package p05
 
 import (
+	"fmt"
+	"os"
 	"strings"
 
 	"verifharness/core"
@@ -12,7 +14,15 @@ type P struct{}
 
 func (P) ID() string { return "C05" }
 
-func (P) Exec(line string) string {
+func (p P) Exec(line string) string {
+	out := p.exec(line)
+	if os.Getenv("VERIF_ECHO") != "" {
+		fmt.Fprintf(os.Stderr, "GO %s\n", out)
+	}
+	return out
+}
+
+func (P) exec(line string) string {
 	f := strings.Fields(line)
 	if len(f) < 3 || f[0] != "C05" {
 		return "bad-op"
@@ -20,6 +30,8 @@ func (P) Exec(line string) string {
 	switch f[1] {
 	case "treap":
 		return execTreap(f[2], f[3:])
+	case "db":
+		return execDb(f[2:])
 	}
 	return "bad-op"
 }
